@@ -33,13 +33,13 @@ def main(argv):
     try:
         mod = importlib.import_module('nfcsa.rules.' + prop.lower())
         prog = Program()
-        report = Report(prop)
+        report = Report(prop, prog)
         report.stats['modules'] = len(prog.modules)
         report.stats['classes'] = len(prog.classes)
         report.stats['functions'] = len(prog.functions)
         report.stats['source_lines'] = sum(len(m.lines) for m in prog.modules.values())
         mod.run(report, prog, tier)
-        if tier == 'thorough' and hasattr(mod, 'selftest'):
+        if tier == 'thorough' and hasattr(mod, 'MUTANTS'):
             from nfcsa.selftest import run_selftest
             report.selftest = run_selftest(prop, mod)
         if replay:
